@@ -98,7 +98,10 @@ pub fn make_env(args: &Args, worker: usize) -> sim::Env {
         scratch,
         rcomp: args.verif.join(".build/repo-target/release/rcomp"),
         shim_so: args.verif.join(".build/simlibc.so"),
-        timeout_ms: std::env::var("VERIF_TIMEOUT_MS").ok().and_then(|s| s.parse().ok()).unwrap_or(20_000),
+        // >= 40x the slowest compile of the corpus in this build (the C
+        // grammar for GLR: about 1.5 s); see DESIGN.md 10.1
+        timeout_ms: std::cell::Cell::new(std::env::var("VERIF_TIMEOUT_MS").ok().and_then(|s| s.parse().ok()).unwrap_or(60_000)),
+        timeouts_seen: std::cell::Cell::new(0),
     }
 }
 
